@@ -130,8 +130,25 @@ func c08handlers(c *Ctx) {
 					if !ok || (bo.Op != token.NEQ && bo.Op != token.EQL) {
 						continue
 					}
-					px, py := an.Path(bo.X), an.Path(bo.Y)
-					if !(strings.HasSuffix(px, ".Spec.NodeName") && fromOld(bo.X)) && !(strings.HasSuffix(py, ".Spec.NodeName") && fromOld(bo.Y)) {
+					// the old pod's node name: read directly, or through a local that holds it (or "" when there is no
+					// old pod - then both comparisons are false anyway)
+					isOldName := func(v ssa.Value) bool {
+						if !fromOld(v) {
+							return false
+						}
+						name := false
+						for _, s := range cellSources(v) {
+							if _, isK := constString(s); isK {
+								continue
+							}
+							if !strings.HasSuffix(an.Path(s), ".Spec.NodeName") {
+								return false
+							}
+							name = true
+						}
+						return name
+					}
+					if !isOldName(bo.X) && !isOldName(bo.Y) {
 						continue
 					}
 					nCmp++
